@@ -6,6 +6,8 @@ import (
 	"math/rand"
 	"strconv"
 	"strings"
+	"sync/atomic"
+	"time"
 
 	"github.com/f1bonacc1/process-compose/src/app"
 	"github.com/f1bonacc1/process-compose/src/health"
@@ -122,6 +124,37 @@ func (c *probe) Exec(op string) string {
 				return "none"
 			}
 			return fmt.Sprintf("%v %v", isOk, fatal)
+		case len(w) == 4 && w[0] == "life":
+			// a real prober (exec `true`, period 1 s): Start, Stop after stopMs, then watch for results
+			delay, e1 := strconv.Atoi(w[1])
+			stopMs, e2 := strconv.Atoi(w[2])
+			watchMs, e3 := strconv.Atoi(w[3])
+			if e1 != nil || e2 != nil || e3 != nil {
+				return "bad-op"
+			}
+			var before, after atomic.Int64
+			var stopped atomic.Bool
+			pr, err := health.New("life_probe", health.Probe{Exec: &health.ExecProbe{Command: "true"}, InitialDelay: delay, PeriodSeconds: 1},
+				func(bool, bool, string) {
+					if stopped.Load() {
+						after.Add(1)
+					} else {
+						before.Add(1)
+					}
+				})
+			if err != nil {
+				return "new-error"
+			}
+			pr.Start()
+			time.Sleep(time.Duration(stopMs) * time.Millisecond)
+			pr.Stop()
+			stopped.Store(true)
+			time.Sleep(time.Duration(watchMs) * time.Millisecond)
+			b := "none"
+			if before.Load() > 0 {
+				b = "some"
+			}
+			return fmt.Sprintf("before=%s after=%d", b, after.Load())
 		}
 		return "bad-op"
 	})
@@ -153,6 +186,9 @@ func (c *probe) Gen(r *rand.Rand, tier string, emit func(string)) {
 		}
 		emit(fmt.Sprintf("dflt %d %d %d %d %d", pick(), pick(), pick(), pick(), pick()))
 	}
+	// life cycle of a real prober: stopped during the initial delay, stopped while running
+	emit("life 1 150 1600")
+	emit("life 0 1400 1300")
 	ports := []string{"", "0", "1", "80", "8080", "65535", "65536", "65534", "-1", "+80", "-0", " 80", "80 ", "0080", "8_0", "0x50", "1e3",
 		"99999999999999999999", "-99999999999999999999", "9223372036854775807", "9223372036854775808", "http", "８０", "+", "-", "٣"}
 	for _, p := range ports {
